@@ -32,6 +32,8 @@ def main():
     libdir = B.build_lib("cov", work)
     B.build_isal_ref("cov", work)
     B.build_shss_ref("cov", work)
+    B.build_jer_ref("cov", work)
+    B.build_phazr_ref("cov", work)
     drivers = sorted({r["driver"] for p in props for r in PROPS[p]["runs"] + PROPS[p].get("extra_runs", [])})
     bins = {}
     for d in drivers:
